@@ -285,57 +285,11 @@ func ext۰reflect۰Value۰Len(fr *frame, args []value) value {
 		return cap(v)
 	case []value:
 		return len(v)
-	case *hashmap:
+	case *smap:
 		return v.len()
-	case map[value]value:
-		return len(v)
 	default:
 		panic(fmt.Sprintf("reflect.(Value).Len(%v)", v))
 	}
-}
-
-func ext۰reflect۰Value۰MapIndex(fr *frame, args []value) value {
-	// Signature: func (reflect.Value) Value
-	tValue := rV2T(args[0]).t.Underlying().(*types.Map).Key()
-	k := rV2V(args[1])
-	switch m := rV2V(args[0]).(type) {
-	case map[value]value:
-		if v, ok := m[k]; ok {
-			return makeReflectValue(tValue, v)
-		}
-
-	case *hashmap:
-		if v := m.lookup(k.(hashable)); v != nil {
-			return makeReflectValue(tValue, v)
-		}
-
-	default:
-		panic(fmt.Sprintf("(reflect.Value).MapIndex(%T, %T)", m, k))
-	}
-	return makeReflectValue(nil, nil)
-}
-
-func ext۰reflect۰Value۰MapKeys(fr *frame, args []value) value {
-	// Signature: func (reflect.Value) []Value
-	var keys []value
-	tKey := rV2T(args[0]).t.Underlying().(*types.Map).Key()
-	switch v := rV2V(args[0]).(type) {
-	case map[value]value:
-		for k := range v {
-			keys = append(keys, makeReflectValue(tKey, k))
-		}
-
-	case *hashmap:
-		for _, e := range v.entries() {
-			for ; e != nil; e = e.next {
-				keys = append(keys, makeReflectValue(tKey, e.key))
-			}
-		}
-
-	default:
-		panic(fmt.Sprintf("(reflect.Value).MapKeys(%T)", v))
-	}
-	return keys
 }
 
 func ext۰reflect۰Value۰NumField(fr *frame, args []value) value {
@@ -357,10 +311,8 @@ func ext۰reflect۰Value۰Pointer(fr *frame, args []value) value {
 		return reflect.ValueOf(v).Pointer()
 	case []value:
 		return reflect.ValueOf(v).Pointer()
-	case *hashmap:
-		return reflect.ValueOf(v.entries()).Pointer()
-	case map[value]value:
-		return reflect.ValueOf(v).Pointer()
+	case *smap:
+		return uintptr(unsafe.Pointer(v))
 	case *ssa.Function:
 		return uintptr(unsafe.Pointer(v))
 	case *closure:
@@ -465,9 +417,7 @@ func ext۰reflect۰Value۰IsNil(fr *frame, args []value) value {
 		return x == nil
 	case chan value:
 		return x == nil
-	case map[value]value:
-		return x == nil
-	case *hashmap:
+	case *smap:
 		return x == nil
 	case iface:
 		return x.t == nil
@@ -516,7 +466,7 @@ func newMethod(pkg *ssa.Package, recvType types.Type, name string) *ssa.Function
 	return fn
 }
 
-func initReflect(i *interpreter) {
+func initReflect(i *Program) {
 	i.reflectPackage = &ssa.Package{
 		Prog:    i.prog,
 		Pkg:     reflectTypesPackage,
